@@ -191,7 +191,11 @@ def conventions_agree(req):
 
         class Sub(Base):
             pass
-        for cls in (Base, Sub):
+
+        class Falsy(Base):
+            def __len__(self):
+                return 0          # a falsy instance is still a bound instance
+        for cls in (Base, Sub, Falsy):
             inst = cls()
             cases = [("meth via instance", inst.meth, (1,), {"y": 2}, ("meth", inst, (1,), (("y", 2),)), None),
                      ("meth via class", cls.meth, (inst, 1), {}, ("meth", inst, (1,), ()), None),
@@ -277,11 +281,23 @@ def asyncio_matches_asynq(req):
             return
         elif kind == 4:
             r = yield None
-        else:
+        elif kind == 5:
             r = yield {"k": returns_exc_object.asynq(2)}
             r = type(r["k"]).__name__
+        elif kind == 6:
+            try:
+                yield {"a": slow_ok.asynq("x"), "b": bad.asynq(1), "c": slow_ok.asynq("y"), "d": bad.asynq(2)}
+                r = "no error"
+            except KeyError as e:
+                r = ("caught", e.args[0], sorted(finished))
+        else:
+            try:
+                yield (slow_ok.asynq("x"), [bad.asynq(3), slow_ok.asynq("y")], {"k": slow_ok.asynq("z")})
+                r = "no error"
+            except KeyError as e:
+                r = ("caught", e.args[0], sorted(finished))
         return r
-    for kind in range(6):
+    for kind in range(8):
         del finished[:]
         _reset()
         try:
@@ -554,6 +570,31 @@ def diagnostics_total_and_stack(req):
                 return fail("format_asynq_stack must list the task and each creator, outermost first", level=d, stack=repr(st))
     if debug.format_asynq_stack() is not None:
         return fail("format_asynq_stack outside a task must be None")
+    # a task whose creator has already finished still lists that creator
+    _reset()
+    seen = {}
+
+    @A()
+    def child():
+        seen["stack"] = debug.format_asynq_stack()
+        yield t.asynq(1)
+        return 1
+
+    @A()
+    def maker():
+        yield t.asynq(0)
+        return child.asynq()          # built here, returned un-awaited: maker finishes before child runs
+
+    @A()
+    def top():
+        c = yield maker.asynq()
+        r = yield c
+        return r
+    top()
+    st = seen.get("stack")
+    if st is None or len(st) != 3:
+        return fail("format_asynq_stack must list the task and each task that created it, outermost first, also when a creator has finished",
+                    stack=repr(st))
     return None
 
 
@@ -663,6 +704,30 @@ def mock_patch_all_conventions(req):
             calls = m.call_args_list
         if any(v != "mocked" for v in res.values()) or len(calls) != 4 or any(c != ((3,), {"y": 4}) for c in calls):
             return fail("default mock must be reached by every calling convention with the given arguments", results=repr(res), calls=len(calls))
+        # the same patcher activated twice (decorator form / start-stop-start): each activation's replacement is the one reached
+        patcher = amock.patch("verif_mock_target.target")
+        for round_ in (1, 2, 3):
+            m = patcher.start()
+            m.return_value = "round%d" % round_
+            try:
+                res = all_conv(lambda: mod.target, (round_,), {})
+            finally:
+                patcher.stop()
+            if any(v != "round%d" % round_ for v in res.values()) or len(m.call_args_list) != 4:
+                return fail("re-activating the same patcher: a calling convention reached an earlier activation's replacement",
+                            activation=round_, results=repr(res), calls_on_this_mock=len(m.call_args_list))
+        r = restored("repeated activation of one patcher")
+        if r:
+            return r
+
+        @amock.patch("verif_mock_target.target")
+        def decorated_default(m):
+            m.return_value = "deco"
+            return all_conv(lambda: mod.target, (1,), {}), len(m.call_args_list)
+        for _ in range(2):
+            res, ncalls = decorated_default()
+            if any(v != "deco" for v in res.values()) or ncalls != 4:
+                return fail("decorator form called twice: conventions disagree", results=repr(res), calls=ncalls)
         # non callable
         with amock.patch("verif_mock_target.CONST", 9):
             if mod.CONST != 9:
